@@ -139,6 +139,8 @@ def run_case(desc, ctx):
         singus = _pick_singularities(rng, kind, ref, len(V), F)
         use_features = desc["features"]
         cls = "zoo"
+    if singus and desc["gen"] != "anchor_sphere_adjacent_pair" and rng.random() < 0.2:
+        singus = list(singus) + [0]  # vertex 0 is a legitimate singular vertex
     singus = list(dict.fromkeys(int(s) for s in singus))
     genus = (2 - a["chi"] - len(a["border_loops"])) // 2
     ctx.cls("input:%s genus=%d loops=%d" % ("closed" if a["closed"] else "bordered", genus, len(a["border_loops"])))
